@@ -648,13 +648,18 @@ func glb(v ssa.Value, seen map[ssa.Value]bool) (int64, bool) {
 }
 
 // prove goal >= 0.
-func (p *gprover) prove(goal glin, fs []gfact) (bool, string) {
+func (p *gprover) prove(goal glin, fs []gfact) (bool, string) { return p.proveD(goal, fs, 0) }
+
+func (p *gprover) proveD(goal glin, fs []gfact, depth int) (bool, string) {
+	if depth > 2 {
+		return false, ""
+	}
 	for s, k := range goal.t {
 		if c, ok := s.v.(*ssa.Call); ok && !s.isLen && k < 0 {
 			if b, ok := c.Call.Value.(*ssa.Builtin); ok && b.Name() == "min" {
 				for _, a := range c.Call.Args {
 					g := goal.add(gs(s), -k).add(p.val(a), k)
-					if ok, why := p.prove(g, fs); ok {
+					if ok, why := p.proveD(g, fs, depth+1); ok {
 						return true, "min: " + why
 					}
 				}
@@ -695,7 +700,7 @@ func (p *gprover) prove(goal glin, fs []gfact) (bool, string) {
 			if b, ok := s.v.(*ssa.BinOp); ok && b.Op == token.QUO {
 				if c, ok := gConstInt(b.Y); ok && c > 0 {
 					dv := p.val(b.X)
-					if okd, _ := p.proveBasic(dv, fs); okd {
+					if okd, _ := p.proveD(dv, fs, depth+1); okd {
 						ins = append(ins, dv.add(gs(s), -c))
 					}
 				}
@@ -714,6 +719,38 @@ func (p *gprover) prove(goal glin, fs []gfact) (bool, string) {
 			}
 		}
 	}
+	// stride rule: i = 0, s, 2s, … ; len ≡ 0 (mod s) ; i < len  =>  len - i >= s
+	for sym, k := range goal.t {
+		if sym.isLen || k != -1 {
+			continue
+		}
+		stride := phiStride(sym.v)
+		if stride <= 1 {
+			continue
+		}
+		for _, f := range ins {
+			d := goal.add(f, -1)
+			if !d.isConst() || d.c < -(stride-1) || d.c > -1 {
+				continue
+			}
+			// f must be L - i - 1 with L divisible by the stride
+			L := f.add(gs(sym), 1).add(gk(1), 1)
+			for _, e := range eqs {
+				if len(e.t) != 1 || e.c != 0 {
+					continue
+				}
+				for es := range e.t {
+					if b, ok := es.v.(*ssa.BinOp); ok && !es.isLen && b.Op == token.REM {
+						if m, ok := gConstInt(b.Y); ok && m == stride {
+							if dd := p.val(b.X).add(L, -1); dd.isConst() && dd.c == 0 {
+								return true, fmt.Sprintf("stride rule: index runs in steps of %d from 0, the length is a multiple of %d, and index < length", stride, stride)
+							}
+						}
+					}
+				}
+			}
+		}
+	}
 	cands := []glin{goal}
 	for _, e := range eqs {
 		for _, k := range []int64{1, -1} {
@@ -728,6 +765,15 @@ func (p *gprover) prove(goal glin, fs []gfact) (bool, string) {
 			r := g.add(f, -1)
 			if r.isConst() && r.c >= 0 || r.nonneg() {
 				return true, "fact " + p.str(f) + " >= 0"
+			}
+			// the same fact used k times (k = the goal's coefficient of the fact's symbol)
+			for fsym, fc := range f.t {
+				if gc := g.t[fsym]; fc > 0 && gc > fc && gc%fc == 0 {
+					r := g.add(f, -(gc / fc))
+					if r.isConst() && r.c >= 0 || r.nonneg() {
+						return true, fmt.Sprintf("fact %s >= 0 (x%d)", p.str(f), gc/fc)
+					}
+				}
 			}
 		}
 	}
@@ -986,4 +1032,36 @@ func (c *Ctx) globalTableSize(g *ssa.Global) int64 {
 		})
 	}
 	return n
+}
+
+// phiStride: v is a loop variable phi[0, v+s] with constant s; returns s (0 if not).
+func phiStride(v ssa.Value) int64 {
+	phi, ok := v.(*ssa.Phi)
+	if !ok {
+		return 0
+	}
+	var stride int64
+	okInit := false
+	for _, e := range phi.Edges {
+		if k, ok := gConstInt(e); ok {
+			if k != 0 {
+				return 0
+			}
+			okInit = true
+			continue
+		}
+		b, ok := e.(*ssa.BinOp)
+		if !ok || b.Op != token.ADD || b.X != ssa.Value(phi) {
+			return 0
+		}
+		k, ok := gConstInt(b.Y)
+		if !ok || (stride != 0 && stride != k) {
+			return 0
+		}
+		stride = k
+	}
+	if !okInit {
+		return 0
+	}
+	return stride
 }
